@@ -32,6 +32,11 @@ CHECKS = {
          "An observer keeps a mailbox selected while others (sessions, connector) remove messages and put them back. The monitor checks on every response: no EXPUNGE while FETCH/STORE/SEARCH (UID forms, failing ones too) is in flight; after a removal is committed and applied to the observer (barrier), the first OK command that permits expunges (NOOP, CHECK, EXPUNGE, MOVE, STATUS of the selected mailbox, APPEND to it, IDLE) announces it; the mirror never holds one message twice (re-add announced before removal); an OK FETCH/STORE/SEARCH that held removals back carries [EXPUNGEISSUED]. The table covers 4 removal kinds x 4 re-add kinds x 11-17 next commands x 2 follow-ups.",
          "Trusts the quiescence hook, the mirror and fresh EXAMINE views as the authoritative content.",
          "DESIGN.md §4 C05"),
+ "C06": ("exploration",
+         "remote-truth monitor: the harness connector is the reference state; every update's Waiter result recorded; fresh views, LIST and a selected observer's NOOP compared before/after valid updates of every kind, invalid ones, restatements/duplicates and delivered echoes of client commands; concurrent bursts of mixed updates",
+         "Histories mix valid updates of every kind (MessagesCreated with new / known / known-only messages and ignored unknown mailboxes, MessageFlagsUpdated, MessageMailboxesUpdated, MessageDeleted, MessageUpdated with same bytes / new bytes / AllowCreate, MessageIDChanged, MailboxCreated/Deleted/Updated, Noop), 16 kinds of invalid ones (unknown IDs, protected recovery mailbox, taken names), restatements of the current state, duplicate deliveries and the remote echoes of client commands (APPEND, STORE, COPY, MOVE, EXPUNGE, CREATE). Every update must be acknowledged (a second acknowledgement panics and is recorded), valid ones with success; after each step every mailbox seen by a fresh session equals the remote (membership, flags, bytes), untouched messages keep their UIDs and LIST equals the remote names; invalid updates, restatements and echoes leave UIDs/UIDNEXT/flags/bytes unchanged and a selected observer's NOOP silent. Bursts from 2-6 goroutines check one acknowledgement each and convergence.",
+         "MailboxIDChanged is only exercised with unknown IDs (a connector cannot learn internal mailbox IDs). Echoes of intermediate states of multi-call commands are not restatements and are not delivered. Watchdog expiry on an acknowledgement is inconclusive, not a violation, for valid updates.",
+         "DESIGN.md §4 C06"),
  "C08": ("exploration",
          "reference-model monitor: every db.Transaction/db.ReadOnly method called directly on the SQLite client (verif-tagged constructor), each result and a full getter dump compared with an in-memory relational model; aborted transactions; argument-length table around the batching limit",
          "Drives the real SQLite client with PRNG sequences over all ~70 interface methods (incl. the ones no IMAP script reaches), compares every return value and, after every write transaction, a dump of the whole database through its getters with a small relational model; transactions aborted at PRNG-chosen points must leave no trace; every list-taking method is called with 0..2500 arguments. Held on the sequences explored.",
